@@ -4,7 +4,7 @@ T: harness/extract/routes.py re-emits lean/HailVerif/Generated/BatchRoutes.lean 
    the theorems of Props/C14.lean are `decide`d over that table.
 C (guards): every registered route's REAL handler object (real decorator stack from gear/gear/auth.py and front_end.py, the session
    lookup stubbed at `auth._fetch_userdata`, `_user_can_access` running its real SQL over harness/minisql) is called with a real
-   aiohttp request for every caller (2^7 attribute combinations); the innermost handler body is replaced by a probe; the outcome
+   aiohttp request for every caller (2^8 attribute combinations); the innermost handler body is replaced by a probe; the outcome
    (allow / 302 / 401 / 403 / 404 / 500) is compared with `Access.decision` and the policy class with `Access.required`.
 C (owner-only mutators): the REAL handlers with their REAL bodies, real gear.database.Database over harness/minisql executing the repo's SQL,
    for owner / project-mate / stranger / developer and fresh / already-known update tokens; compared with `Access.mutate`."""
@@ -17,7 +17,7 @@ from .. import loader, svcenv
 from ..extract import routes as routes_extract
 from ..framework import LEAN, MachineryError, Prop, write_if_changed
 
-CALLER_FIELDS = ['hasSession', 'active', 'developer', 'isAuth', 'member', 'owner', 'batchIdOk']
+CALLER_FIELDS = ['hasSession', 'active', 'developer', 'isAuth', 'member', 'owner', 'batchIdOk', 'serviceAccount']
 
 PUBLIC = {('GET', '/healthcheck'), ('GET', '/metrics'), ('GET', '/api/v1alpha/version'), ('GET', '/api/v1alpha/cloud'),
           ('GET', '/swagger'), ('GET', '/openapi.yaml'), ('GET', '/tos'), ('GET', '/privacy'),
@@ -56,6 +56,19 @@ MUTATORS = {
     'commit_update': ('commitUpdate', 'PATCH', '/api/v1alpha/batches/{batch_id}/updates/{update_id}/commit'),
     'close_batch': ('closeBatch', 'PATCH', '/api/v1alpha/batches/{batch_id}/close'),
 }
+# billing-project administration through the API: (method, path, match_info, JSON body)
+ADMIN_ROUTES = {
+    'create': ('POST', '/api/v1alpha/billing_projects/{billing_project}/create', {'billing_project': 'bp_new'}, None),
+    'add_user': ('POST', '/api/v1alpha/billing_projects/{billing_project}/users/{user}/add', {'billing_project': 'bp_x', 'user': 'carol'}, None),
+    'remove_user': ('POST', '/api/v1alpha/billing_projects/{billing_project}/users/{user}/remove', {'billing_project': 'bp_alice_1', 'user': 'bob'}, None),
+    'close': ('POST', '/api/v1alpha/billing_projects/{billing_project}/close', {'billing_project': 'bp_dave'}, None),
+    'reopen': ('POST', '/api/v1alpha/billing_projects/{billing_project}/reopen', {'billing_project': 'bp_dave'}, None),
+    'delete': ('POST', '/api/v1alpha/billing_projects/{billing_project}/delete', {'billing_project': 'bp_dave'}, None),
+    'edit_limit': ('POST', '/api/v1alpha/billing_limits/{billing_project}/edit', {'billing_project': 'bp_x'}, {'limit': 5}),
+}
+# caller -> (username, is_developer, is_service_account)
+ADMIN_WHO = {'developer': ('dave', 1, 0), 'auth': ('auth', 0, 1), 'service-account': ('ci', 0, 1), 'service-account-grafana': ('grafana', 0, 1),
+             'plain-user': ('carol', 0, 0), 'auth-namesake': ('Auth', 0, 0), 'inactive-developer': ('dave', 1, 0)}
 WHO = ['owner', 'mate', 'stranger', 'developer', 'namesake']     # namesake = account `Alice` (owner is `alice`), no memberships
 LISTINGS = ['/api/v1alpha/batches', '/api/v2alpha/batches', '/api/v1alpha/batches/completed']
 KEY_CI = 'username filters on batches.user / billing_project_users.user are case-insensitive: a namesake account passes them'
@@ -75,8 +88,8 @@ class C14(Prop):
                  'lifted to all callers + differential correspondence of the decorator model with the real decorator stacks and of the '
                  'owner-check model with the real handlers run over the repo\'s SQL (minisql)')
     level_text = ('Theorems over the route table generated from the current front_end.py: every registered route whose (method, path) is not '
-                  'in the public list is wrapped by a guard stack that, for EVERY caller (all 2^7 combinations of session / active / developer '
-                  '/ auth-service / billing-project member / owner / well-formed batch id), refuses the caller before the handler body unless '
+                  'in the public list is wrapped by a guard stack that, for EVERY caller (all 2^8 combinations of session / active / developer '
+                  '/ auth-service / service-account / billing-project member / owner / well-formed batch id), refuses the caller before the handler body unless '
                   'the caller is an active authenticated user and, for batch-scoped read/cancel/delete, a member of the batch\'s billing project, '
                   'for billing-project administration a developer or the auth service; a refused request leaves the state unchanged. '
                   'Owner-only mutators: all seven start with the owner-filtered SELECT (extracted, owner_filter_first), and in the model of '
@@ -87,7 +100,7 @@ class C14(Prop):
                   'The control flow before commit 4c50f4344 is kept as mutateOld with its refutation.')
     level_note = ('PARTIAL for the owner-only mutators: `mutate` is a hand model of which check comes first, tied to the real handlers only by '
                   'the 39 scenario runs over minisql (MySQL itself is not available; the deprecated close_batch answers 500 to every caller on the current schema — Unknown column job_groups.deleted — so its owner case is not run). The decorator semantics (`guard`) are tied by exhaustive '
-                  'differential runs (68 routes x 128 callers) with the session lookup stubbed at Authenticator._fetch_userdata and aiohttp '
+                  'differential runs (68 routes x 256 callers, plus name-sake variants and billing-administration requests with real bodies + DB diff) with the session lookup stubbed at Authenticator._fetch_userdata and aiohttp '
                   'requests built by aiohttp.test_utils.make_mocked_request; aiohttp routing, middlewares (csrf, frozen) and the auth service '
                   'are outside. /metrics (registered in run()) is classed with /healthcheck as operational/public. ownerFilter is a syntactic '
                   'fact (first SQL reached from the handler is SELECT … WHERE … user = %s).')
@@ -182,8 +195,8 @@ class C14(Prop):
         probe.__name__ = name
         return probe
 
-    def ud(self, name, dev=0, state='active'):
-        return dict(self.batchapp.USERDATA, username=name, login_id=name, is_developer=dev, state=state,
+    def ud(self, name, dev=0, state='active', sa=0):
+        return dict(self.batchapp.USERDATA, username=name, login_id=name, is_developer=dev, state=state, is_service_account=sa,
                     hail_credentials_secret_name=f'{name}-gsa-key', tokens_secret_name=f'{name}-tokens')
 
     async def _build_scenario(self):
@@ -261,12 +274,17 @@ class C14(Prop):
     # ---- cases ----------------------------------------------------------------------------------------------------------------
     def cases(self, rng, n, tier):
         for r in self.table:
-            for bits in range(128):
+            for bits in range(256):
                 cl = {f: bool(bits >> j & 1) for j, f in enumerate(CALLER_FIELDS)}
                 yield {'kind': 'guard', 'route': [r['method'].upper(), r['path']], 'caller': cl}
                 if cl['hasSession'] and not (cl['isAuth'] or cl['member'] or cl['owner']):
                     # a different account whose name equals a member's (and the owner's) name up to case: `Alice` on alice's batch
                     yield {'kind': 'guard', 'route': [r['method'].upper(), r['path']], 'caller': {**cl, 'namesake': True}}
+                    # …and an account whose name equals the auth service's name up to case (`Auth`)
+                    yield {'kind': 'guard', 'route': [r['method'].upper(), r['path']], 'caller': {**cl, 'namesake': 'auth'}}
+        for key in ADMIN_ROUTES:
+            for who in ADMIN_WHO:
+                yield {'kind': 'admin', 'route': key, 'who': who}
         for path in LISTINGS:
             for who in WHO:
                 yield {'kind': 'list', 'route': path, 'who': who}
@@ -290,7 +308,9 @@ class C14(Prop):
 
     def model_lines(self, c):
         if c['kind'] == 'guard':
-            return ['guard %d %s' % (self._index(c['route']), ' '.join('1' if c['caller'][f] else '0' for f in CALLER_FIELDS))]
+            return ['guard %d %s' % (self._index(c['route']), ' '.join('1' if c['caller'].get(f) else '0' for f in CALLER_FIELDS))]
+        if c['kind'] == 'admin':
+            return ['adm %d %d' % (c['who'] == 'developer', c['who'] == 'auth')]
         if c['kind'] == 'list':
             return ['list %d %d' % (c['who'] in ('owner', 'mate'), c['who'] == 'namesake')]
         m = MUTATORS[c['handler']][0]
@@ -327,12 +347,15 @@ class C14(Prop):
         if key in self.bare:
             return True, f'{method} {path_t} allow {cls}', []
         name = 'auth' if cl['isAuth'] else 'alice'
-        namesake = bool(cl.get('namesake'))
+        namesake = cl.get('namesake') is True
         if namesake:
             name = 'Alice'
+        elif cl.get('namesake') == 'auth':
+            name = 'Auth'
         userdata = None
         if cl['hasSession']:
-            userdata = self.ud(name, dev=1 if cl['developer'] else 0, state='active' if cl['active'] else 'inactive')
+            userdata = self.ud(name, dev=1 if cl['developer'] else 0, state='active' if cl['active'] else 'inactive',
+                               sa=1 if cl.get('serviceAccount') else 0)
         match = {}
         for p in re.findall(r'\{(\w+)\}', path_t):
             if p == 'batch_id':
@@ -420,9 +443,32 @@ class C14(Prop):
             self._cache[k] = res
         return self._cache[k]
 
+    def _admin(self, c):
+        k = json.dumps(c, sort_keys=True)
+        if k not in self._cache:
+            method, path_t, match, body = ADMIN_ROUTES[c['route']]
+            name, dev, sa = ADMIN_WHO[c['who']]
+            userdata = self.ud(name, dev=dev, sa=sa, state='inactive' if c['who'].startswith('inactive') else 'active')
+            self.db.restore(self.snap_open)
+            before = self.db.dump()
+            self.passthrough = True
+            try:
+                status, reason = self.loop.run_until_complete(self._call(method, path_t, match, userdata, body))
+                self.loop.run_until_complete(asyncio.sleep(0))
+            finally:
+                self.passthrough = False
+            after = self.db.dump()
+            self._cache[k] = (status, reason, sorted(t for t in after if after[t] != before.get(t)))
+        return self._cache[k]
+
     def impl(self, c):
         if c['kind'] == 'guard':
             return [self._guard(c)[1]]
+        if c['kind'] == 'admin':
+            status, reason, changed = self._admin(c)
+            if c['who'] in ('developer', 'auth'):
+                return ['admin-caller']
+            return [f"{'ok' if 200 <= status < 300 else 'error'} {'changed' if changed else 'unchanged'}"]
         if c['kind'] == 'list':
             status, ids = self._listing(c)
             return ['listed' if self.A1 in ids else 'hidden']
@@ -440,9 +486,11 @@ class C14(Prop):
             r = self.table[self._index(c['route'])]
             method, path_t = r['method'].upper(), r['path']
             cls = py_required(method, path_t)
-            who = ','.join(f for f in CALLER_FIELDS if c['caller'][f]) or 'anonymous'
-            if c['caller'].get('namesake'):
+            who = ','.join(f for f in CALLER_FIELDS if c['caller'].get(f)) or 'anonymous'
+            if c['caller'].get('namesake') is True:
                 who += ',account `Alice` on a batch of `alice`'
+            elif c['caller'].get('namesake') == 'auth':
+                who += ',account `Auth` (not the auth service)'
             if entered is None:
                 return f'unguarded: {method} {path_t}: registered handler {r["handler"]} cannot be inspected ({line})'
             if entered and not established(cls, c['caller']):
@@ -450,6 +498,17 @@ class C14(Prop):
                         f'class {cls}')
             if not entered and writes:
                 return f'denied-but-wrote: {method} {path_t} ({r["handler"]}) refused [{who}] but executed {writes[0][:80]!r}'
+            return None
+        if c['kind'] == 'admin':
+            status, reason, changed = self._admin(c)
+            name, dev, sa = ADMIN_WHO[c['who']]
+            if c['who'] not in ('developer', 'auth') and (200 <= status < 300 or changed):
+                method, path_t, match, _ = ADMIN_ROUTES[c['route']]
+                return (f'billing administration {method} {path_t} {match}: caller {c["who"]} (username {name!r}, is_developer={dev}, '
+                        f'is_service_account={sa}) is neither a developer nor the auth service but got {status} and the database '
+                        f'{"changed in " + ", ".join(changed) if changed else "did not change"}')
+            if c['who'] == 'developer' and c['route'] == 'create' and not (200 <= status < 300 and changed):
+                return f'scenario problem: a developer could not create a billing project ({status} {reason})'
             return None
         if c['kind'] == 'list':
             status, ids = self._listing(c)
@@ -501,7 +560,7 @@ class C14(Prop):
         return out
 
     def extra_coverage(self):
-        return {'exhaustive': True, 'routes': len(self.table), 'callers_per_route': 128}
+        return {'exhaustive': True, 'routes': len(self.table), 'callers_per_route': 256}
 
 
 PROP = C14()
